@@ -101,3 +101,44 @@ Section OptionsContract.
     rewrite B. cbn [option_map]. rewrite A, options_roundtrip by assumption. reflexivity.
   Qed.
 End OptionsContract.
+
+(* ------------------------------------------------------------------ header_property pairs over the regenerated table *)
+(* the value read back after assigning v, in its normal form *)
+Definition hp_normal (c : hcodec) (v : pval) : out :=
+  match c, v with
+  | CStr, PStr s => OStr s
+  | CInt, PInt z | CAge, PInt z => OInt z
+  | CSet, PList l => OList l
+  | _, _ => OErr TypeError
+  end.
+
+Theorem hp_assign_read h attr name c v text :
+  prop_lookup attr header_props = Some (name, c) -> hp_dump c v = Some text -> has_newline text = false ->
+  snd (hp_set h attr v) = None /\
+  hp_text (fst (hp_set h attr v)) attr = OStr text /\
+  hp_get (fst (hp_set h attr v)) attr = hp_normal c v /\
+  hp_get (hp_del (fst (hp_set h attr v)) attr) attr = ONone /\ hp_text (hp_del (fst (hp_set h attr v)) attr) attr = ONone.
+Proof.
+  intros L D N. unfold hp_set, hp_get, hp_del, hp_text, header_text. rewrite L, D. unfold hd_set, str_header_value. rewrite N. cbn [fst snd].
+  rewrite hd_get_after_set by apply ci_eqb_refl. rewrite hd_get_after_del by apply ci_eqb_refl.
+  split; [reflexivity|]. split; [reflexivity|]. split; [|split; reflexivity].
+  destruct c; destruct v as [s|z|l]; cbn [hp_dump] in D; try discriminate; cbn [hp_load hp_normal].
+  - inversion D; subst. reflexivity.
+  - inversion D; subst. rewrite parse_dec_of_Z. reflexivity.
+  - destruct (z <? 0)%Z eqn:Z0; [discriminate|]. inversion D; subst. pose proof (parse_dec_of_Z z) as P.
+    destruct (dec_of_Z z) as [|c0 r] eqn:E; [cbn in P; discriminate|]. rewrite P, Z0. reflexivity.
+  - inversion D; subst. destruct (dump_list l) as [|c0 r] eqn:E.
+    + destruct l as [|x l']; [reflexivity|]. exfalso. apply (dump_list_nonempty (x :: l')); [discriminate|exact E].
+    + rewrite <- E, list_roundtrip. reflexivity.
+Qed.
+
+(* which entries of the regenerated table the theorem covers: every str / int / age / set-valued property; the
+   date-valued ones are covered by C16_date_assign_read, the enum-valued ones are judged by the harness only *)
+Definition codec_modelled (c : hcodec) : bool := match c with CStr | CInt | CAge | CSet => true | _ => false end.
+Theorem hp_table_coverage :
+  map (fun p => fst p) (filter (fun p => negb (codec_modelled (snd (snd p)))) header_props)
+  = [[100; 97; 116; 101]; [101; 120; 112; 105; 114; 101; 115]; [108; 97; 115; 116; 95; 109; 111; 100; 105; 102; 105; 101; 100];
+     [99; 114; 111; 115; 115; 95; 111; 114; 105; 103; 105; 110; 95; 111; 112; 101; 110; 101; 114; 95; 112; 111; 108; 105; 99; 121];
+     [99; 114; 111; 115; 115; 95; 111; 114; 105; 103; 105; 110; 95; 101; 109; 98; 101; 100; 100; 101; 114; 95; 112; 111; 108; 105; 99; 121]]
+  /\ forallb (fun p => match snd (snd p) with CDate | CEnum => true | c => codec_modelled c end) header_props = true.
+Proof. split; vm_compute; reflexivity. Qed.
